@@ -491,6 +491,14 @@ public:
       for (unsigned i = 0; i < TS->getNumHandlers(); ++i)
         H.push_back(stmt(TS->getHandler(i)->getHandlerBlock()));
       O["handlers"] = std::move(H);
+      // what each handler catches: the caught type without reference/cv, or "..." for catch-all
+      json::Array Cs;
+      for (unsigned i = 0; i < TS->getNumHandlers(); ++i) {
+        QualType QT = TS->getHandler(i)->getCaughtType();
+        if (QT.isNull()) Cs.push_back("...");
+        else Cs.push_back(QT.getNonReferenceType().getUnqualifiedType().getAsString());
+      }
+      O["catches"] = std::move(Cs);
       return std::move(O);
     }
     if (isa<GotoStmt>(S) || isa<LabelStmt>(S) || isa<IndirectGotoStmt>(S))
